@@ -37,6 +37,9 @@ pub struct Case {
     pub pre: Vec<Pre>,
     /// run a --needed build before the build under test
     pub needed_first: bool,
+    /// exact leftover files (path -> bytes) instead of `pre`: the state a killed run left behind
+    #[serde(default)]
+    pub leftover: Option<BTreeMap<String, crate::gen::project::FileData>>,
 }
 
 fn gen_pre(c: &mut Choices) -> Pre {
@@ -76,6 +79,7 @@ fn gen_case(c: &mut Choices) -> Case {
         },
         pre,
         needed_first: c.chance(1, 6),
+        leftover: None,
     }
 }
 
@@ -101,10 +105,14 @@ fn apply_pre(pre: &Pre, correct: Option<&Vec<u8>>) -> Option<Vec<u8>> {
 
 pub fn check(case: &Case, st: &mut Stats) -> Check {
     let su = materialise(&case.project);
-    let ex = su.expect(&case.project, &case.opts);
-    if let Verdict::Excluded(r) = &ex.verdict {
-        st.exclude(r);
-        return Ok(());
+    if case.leftover.is_none() {
+        // (leftover cases come from real killed runs of projects with slowed-down commands,
+        // which the model's command vocabulary does not cover; the oracle below is model-free)
+        let ex = su.expect(&case.project, &case.opts);
+        if let Verdict::Excluded(r) = &ex.verdict {
+            st.exclude(r);
+            return Ok(());
+        }
     }
     su.write(&case.project);
     // reference: from the tree without generated files
@@ -127,6 +135,20 @@ pub fn check(case: &Case, st: &mut Stats) -> Check {
     su.wipe_generated();
     let mut seeded: BTreeMap<String, String> = BTreeMap::new();
     let mut interesting = false;
+    if let Some(left) = &case.leftover {
+        for (p, d) in left {
+            let full = su.sc.root.join(p);
+            if full.parent().map(|d| d.is_dir()).unwrap_or(false) && !su.tree.contains_key(p) {
+                std::fs::write(&full, d.bytes()).expect("seed leftover");
+                seeded.insert(p.clone(), "left_by_killed_run".into());
+                if Some(d.bytes()) != g0.get(p).map(|b| b.as_slice()) {
+                    interesting = true;
+                }
+            }
+        }
+        st.class("pre:left_by_killed_run");
+        paths.clear();
+    }
     for (i, p) in paths.iter().enumerate() {
         let pre = &case.pre[i % case.pre.len()];
         let content = apply_pre(pre, g0.get(p));
@@ -249,9 +271,88 @@ impl Prop for C08 {
         let total = if ctx.quick { 12_000 } else { 250_000 };
         let n = ctx.share(total);
         ctx.drive(1, n, 600, &gen_case, &check, &reduce);
+        if !ctx.quick && ctx.stats.violations.is_empty() {
+            sigkill_supplement(ctx);
+        }
     }
     fn replay(&self, case: &Value) -> Check {
         let case: Case = serde_json::from_value(case.clone()).map_err(|e| (format!("bad case: {e}"), "bad-case".to_string()))?;
         check(&case, &mut Stats::default())
     }
+}
+
+
+/// Thorough supplement: interrupt real CLI builds with SIGKILL at pseudo-random times, then check
+/// that the tree they left behind is repaired by simply building again. The leftover tree is the
+/// reproducible unit (saved in the replay file); the kill timing is not.
+fn sigkill_supplement(ctx: &mut WorkerCtx) {
+    use crate::gen::project::FileData;
+    use std::os::unix::process::CommandExt;
+    use std::process::{Command, Stdio};
+    let n = ctx.share(1_500);
+    let mut kills = 0u64;
+    let mut partial_states = 0u64;
+    for k in 0..n {
+        // a project from a pseudo-random choice sequence (deterministic in seed/shard/k)
+        let mut words: Vec<u16> = vec![];
+        let mut x = crate::wctx::mix(ctx.seed, "C08-kill", ctx.shard, k);
+        for _ in 0..300 {
+            x = x.wrapping_mul(6364136223846793005).wrapping_add(1442695040888963407);
+            words.push((x >> 40) as u16);
+        }
+        let mut c = Choices::new(&words);
+        let p = GenParams { error_rate: 0, max_sources: 4, max_items: 8, ..GenParams::default() };
+        let mut project = gen_project(&mut c, &p);
+        // slow the commands down so that the kill lands mid-build
+        for (_, v) in project.files.iter_mut() {
+            if let FileData::Text(s) = v {
+                *s = s.replace("TXTPP#run ", "TXTPP#run sleep 0.02; ");
+            }
+        }
+        let opts = RunOpts {
+            mode: ModeS::Build,
+            trailing_newline: true,
+            threads: 1 + c.below(3),
+            recursive: true,
+            inputs: vec![".".into()],
+            shell: String::new(),
+        };
+        let su = materialise(&project);
+        su.write(&project);
+        // duration of an undisturbed CLI build
+        let t0 = std::time::Instant::now();
+        let ex = crate::child::run_cli(&su.sc.root, &crate::child::cli_args(&opts), &[], None, std::time::Duration::from_secs(60));
+        let full = t0.elapsed();
+        if ex.code != Some(0) {
+            continue; // accidental errors / out-of-vocabulary projects are not interesting here
+        }
+        su.wipe_generated();
+        let frac = (c.raw() as f64) / 65536.0;
+        let delay = full.mul_f64(frac * 1.1);
+        let mut cmd = Command::new(crate::child::CLI);
+        cmd.args(crate::child::cli_args(&opts)).current_dir(&su.sc.root).env_remove("TXTPP_FILE").stdin(Stdio::null()).stdout(Stdio::null()).stderr(Stdio::null()).process_group(0);
+        let Ok(mut child) = cmd.spawn() else { continue };
+        std::thread::sleep(delay);
+        unsafe {
+            libc::kill(-(child.id() as i32), libc::SIGKILL);
+        }
+        let _ = child.wait();
+        kills += 1;
+        let left: BTreeMap<String, FileData> = su.generated().into_iter().map(|(k, v)| (k, FileData::from_bytes(v))).collect();
+        if !left.is_empty() {
+            partial_states += 1;
+        }
+        let case = Case { project: project.clone(), opts: opts.clone(), pre: vec![Pre::Absent], needed_first: false, leftover: Some(left) };
+        ctx.journal(&serde_json::to_value(&case).unwrap_or_default());
+        ctx.stats.evaluations += 1;
+        let mut st = std::mem::take(&mut ctx.stats);
+        let r = check(&case, &mut st);
+        ctx.stats = st;
+        if let Err((m, sig)) = r {
+            ctx.stats.violations.push(crate::wctx::Violation { message: format!("after a build killed by SIGKILL at {:?} of {:?}: {m}", delay, full), signature: sig, case: serde_json::to_value(&case).unwrap_or_default() });
+            break;
+        }
+    }
+    ctx.stats.count("sigkill_runs", kills);
+    ctx.stats.count("sigkill_runs_leaving_generated_files", partial_states);
 }
